@@ -5,6 +5,8 @@ package main
 
 import (
 	"bytes"
+	"crypto/sha256"
+	"encoding/hex"
 	"fmt"
 	"math/big"
 	"net"
@@ -127,8 +129,35 @@ func tokRec(s string) dhcp.Lease {
 	return l
 }
 
-// docTokens: what yaml.Unmarshal makes of a text, as the input tokens of the model:
-// ["err"] or ["doc", net1, net2, lease...]
+// sumKind: the integrity verdict on a lease file text, re-implemented from the rule in the comment of
+// loadByteArray: a text starting with "checksum: " must carry, up to its first newline, the sha256 (hex) of
+// everything after that newline.  doc = no such line, docok = matches, docbad = does not match.
+func sumKind(text []byte) string {
+	const key = "checksum: "
+	if len(text) < len(key) || string(text[:len(key)]) != key {
+		return "doc"
+	}
+	n := bytes.IndexByte(text, 10)
+	if n < 0 {
+		return "docbad"
+	}
+	h := sha256.New()
+	h.Write(text[n+1:])
+	if string(text[len(key):n]) != hex.EncodeToString(h.Sum(nil)) {
+		return "docbad"
+	}
+	return "docok"
+}
+
+// withSum: the text saveConfig writes for a marshalled body
+func withSum(body []byte) []byte {
+	h := sha256.New()
+	h.Write(body)
+	return append([]byte("checksum: "+hex.EncodeToString(h.Sum(nil))+"\n"), body...)
+}
+
+// docTokens: what the integrity rule and yaml.Unmarshal make of a text, as the input tokens of the model:
+// ["err"] or [doc|docok|docbad, net1, net2, lease...]
 func docTokens(text []byte) (toks []string) {
 	defer func() {
 		if e := recover(); e != nil {
@@ -139,8 +168,12 @@ func docTokens(text []byte) (toks []string) {
 	if err := yaml.Unmarshal(text, &d); err != nil {
 		return []string{"err"}
 	}
-	return tokensOfDoc(&d)
+	toks = tokensOfDoc(&d)
+	toks[0] = sumKind(text)
+	return toks
 }
+
+func isDoc(tok string) bool { return tok == "doc" || tok == "docok" || tok == "docbad" }
 
 func tokensOfDoc(d *docT) []string {
 	toks := []string{"doc", netTok(d.Net1), netTok(d.Net2)}
